@@ -858,7 +858,7 @@ pub fn check_ossim(property: &str, tier: &str) -> i32 {
     let par = workers();
     let boots = if thorough { 4 } else { 2 };
     let shards = (par / boots).max(1);
-    let runs: u64 = if property == "C03" { 0 } else if thorough { 2_000_000 } else { 48_000 };
+    let runs: u64 = if property == "C03" { 0 } else if thorough { 1_200_000 } else { 48_000 };
     let validate: u64 = if property == "C03" { 0 } else if thorough { 20_000 } else { 150 };
     let nw = (boots * shards) as u64;
     let mut jobs = Vec::new();
